@@ -110,6 +110,10 @@ type Obligation struct {
 	Raw     map[string]string
 	Inputs  []string // terms whose values are requested from the model
 	Needs   []string
+	// path-split obligations: the blocks on the chosen path below its last join, and that join's source block;
+	// facts established in a block that is neither on the path nor able to reach the tail are left out
+	PathBlocks map[*ssa.BasicBlock]bool
+	PathTail   *ssa.BasicBlock
 	Blk     *ssa.BasicBlock
 	File    string
 	Candidate bool // model comes from the ground (quantifier-free) weakening
